@@ -78,6 +78,15 @@ def simplify_val(v):
     return ("opaque", repr(v))
 
 
+def _cast_kind(rv):
+    """cast kind; integer casts carry the target type (`IntToInt>u8`): a narrowing cast truncates, which matters to the
+    character-set evaluation of `c as u8`"""
+    k = rv["kind"]
+    if k.startswith("IntToInt") and rv.get("ty") in ("u8", "u16", "u32", "u64", "usize", "i8", "i16", "i32", "i64", "isize", "u128", "i128", "char"):
+        return "IntToInt>" + rv["ty"]
+    return k
+
+
 def _mentions(x, local):
     """does the rvalue / operand JSON mention `local` as the base of a place?"""
     if isinstance(x, dict):
@@ -579,7 +588,7 @@ class Body:
         if r == "rawptr":
             return ("ref", "Mut" in rv["bk"], self.resolve_place(rv["place"], st))
         if r == "cast":
-            return ("cast", rv["kind"], self.resolve_operand(rv["op"], st))
+            return ("cast", _cast_kind(rv), self.resolve_operand(rv["op"], st))
         if r == "binop":
             return ("binop", rv["bop"], self.resolve_operand(rv["a"], st), self.resolve_operand(rv["b"], st))
         if r == "unop":
